@@ -2,7 +2,7 @@ use std::str::FromStr;
 
 use crate::errors::{Result, SvgdxError};
 use crate::position::BoundingBox;
-use crate::types::strp;
+use crate::path::{PathSyntax, SvgPathSyntax};
 
 impl BoundingBox {
     pub fn xfrm_scale(&self, sx: f32, sy: f32) -> Self {
@@ -40,18 +40,25 @@ impl FromStr for TransformType {
 
     fn from_str(value: &str) -> Result<Self> {
         let mut parts = value.splitn(2, '(');
+        // SVG allows whitespace between the transform name and the opening bracket
         let name = parts
             .next()
-            .ok_or_else(|| SvgdxError::ParseError("No transform name".to_owned()))?;
-        let args = parts
+            .ok_or_else(|| SvgdxError::ParseError("No transform name".to_owned()))?
+            .trim();
+        let arg_str = parts
             .next()
             .ok_or_else(|| SvgdxError::ParseError("No transform args".to_owned()))?
             .strip_suffix(')')
-            .ok_or_else(|| SvgdxError::ParseError("No closing bracket".to_owned()))?
-            .split(&[',', ' ', '\t', '\n', '\r'])
-            .filter(|&v| !v.is_empty())
-            .map(strp)
-            .collect::<Result<Vec<_>>>()?;
+            .ok_or_else(|| SvgdxError::ParseError("No closing bracket".to_owned()))?;
+        // Arguments use the SVG number grammar (e.g. a sign can act as separator)
+        let mut args = Vec::new();
+        let mut scanner = SvgPathSyntax::new(arg_str);
+        scanner.skip_wsp_comma();
+        while !scanner.at_end() {
+            args.push(scanner.read_number().map_err(|_| {
+                SvgdxError::ParseError(format!("Expected a number in: '{arg_str}'"))
+            })?);
+        }
         // See https://www.w3.org/TR/SVG11/coords.html#TransformAttribute
         Ok(match name.to_lowercase().as_str() {
             "translate" => {
